@@ -676,9 +676,11 @@ def cmd_replay(path):
         log("replay names a broken proof/correspondence only: %s" % d.get("detail", "")[:500])
         return cmd_check(pid, "quick")
     if d.get("engine") == "conc":
-        scn = sx.loads(d["scenario"])
-        scn = [f for f in scn if not (isinstance(f, list) and f and f[0] == "sched")] + [["sched"] + list(d.get("sched", ["random", 0, 1]))]
-        return ConcCheck(mod).run("quick", int(d.get("seed", 1)), only=[{"scn": scn, "meta": {"replay": True}}])
+        case = dict(d["case"])
+        sched = list(d.get("sched", ["random", 0, 1]))
+        case["scn"] = [f for f in case["scn"] if not (isinstance(f, list) and f and f[0] == "sched")] + [["sched"] + sched] + ([["want-choices"]] if sched[0] == "replay" else [])
+        case["sched"] = sched
+        return ConcCheck(mod).run("quick", int(d.get("seed", 1)), only=[case])
     return SeqCheck(mod).run("quick", int(d.get("seed", 1)), only_lines=[d["scenario"]])
 
 
@@ -861,7 +863,7 @@ class ConcCheck:
             log("KNOWN-FINDING: property=%s %s [%s] (%d schedules, e.g. %s seed %s)" % (pid, what, cls, len(vs), lines[vs[0][0]], vs[0][1]))
         if viol:
             v = min(viol, key=lambda x: len(lines[x[0]]))
-            p = write_replay(pid, "violation", {"scenario": lines[v[0]], "sched": v[1], "why": v[2], "seed": seed, "engine": "conc",
+            p = write_replay(pid, "violation", {"scenario": lines[v[0]], "case": cases[v[0]], "sched": v[1], "why": v[2], "seed": seed, "engine": "conc",
                                                 "n_violating_schedules": len(viol)})
             log("VIOLATION property=%s replay=%s" % (pid, p))
             status = 1
@@ -872,7 +874,7 @@ class ConcCheck:
                 payload.update({"broken": "proof", "theorems": proofs["theorems"], "detail": proofs["detail"]})
             if unshown:
                 u = min(unshown, key=lambda x: len(lines[x[0]]))
-                payload.update({"broken": (payload.get("broken", "") + "+correspondence").strip("+"), "scenario": lines[u[0]], "sched": u[1], "why": u[2],
+                payload.update({"broken": (payload.get("broken", "") + "+correspondence").strip("+"), "scenario": lines[u[0]], "case": cases[u[0]], "sched": u[1], "why": u[2],
                                 "n_disagreements": len(unshown)})
             p = write_replay(pid, "unshown", payload)
             log("VIOLATION property=%s replay=%s no-failing-input-found" % (pid, p))
